@@ -21,7 +21,7 @@ os.environ.setdefault("OMP_NUM_THREADS", "1")
 
 import numpy as np  # noqa: E402
 
-from common import Driver, Report, lean_obligations
+from common import Report, lean_obligations
 import tensorlib as tl
 from tensorlib import eff, size, exact_eq
 
@@ -60,7 +60,7 @@ def run_prims(rep, drv, rng, n_cases, maxdim, maxaxes, big=60000):
         except Exception:       # numpy raises ValueError/AxisError/IndexError: one class
             real = "err value"
         kept.append((op, line, real))
-    answers = tl.ask_many(drv, [c[1] for c in kept])
+    answers = drv.ask_many([c[1] for c in kept])
     for (op, line, real), model in zip(kept, answers):
         shape = prim_shape(line)
         rep.count("prims.op:" + op)
@@ -85,7 +85,7 @@ def run_tensor_ops(rep, drv, rng, n_cases, maxdim, maxwires, maxdepth, work, pea
             continue
         cases.append(e)
     lines = ["teval " + tl.tok_texpr(e) for e in cases]
-    answers = tl.ask_many(drv, lines)
+    answers = drv.ask_many(lines)
     for e, line, model in zip(cases, lines, answers):
         value = [None]
 
@@ -193,7 +193,7 @@ def oracle_case(rep, rng, subseed, maxdim, maxwires, cap, snake_cap):
     from discopy.tensor import Tensor, Dim
     a, b, c, d, e, k, h1, h2 = [tl.rand_dims(rng, maxdim, 0, maxwires) for _ in range(8)]
     shrink([a, d], cap), shrink([b, e], cap), shrink([c, k], cap)
-    shrink([a, d, h1], 4 * cap), shrink([b, e, h2], 4 * cap)
+    shrink([a, d, h1], cap), shrink([b, e, h2], cap)
     D = lambda x: Dim(*x)  # noqa: E731
 
     def rand_t(dom, cod):
@@ -312,8 +312,10 @@ def run(tier, seed, replay=None):
                 "wires (axes) in total with some dim >= 2 and an operation other than id/literal "
                 "(prims: a successful call other than identity on an array of >= 2 axes); "
                 "distinct by request line / by a hash of dims and entries")
-    rep.partial = ["multi-wire snake equations are checked by the oracle only "
-                   "(theorem for single-wire)"]
+    rep.partial = ["none for the model: every clause of C08 is a Lean theorem about "
+                   "Model/Tensor.lean; numpy's tensordot/moveaxis/reshape/identity/conjugate are "
+                   "modelled and validated by the numpy-prims stream only; floating point is "
+                   "outside (theorems over exact rings)"]
     rep.assumptions = [
         "exactness: all entries are Gaussian integers below 2^50, so float64/complex128 "
         "arithmetic is exact and results are compared with ==; a case leaving that range is "
@@ -332,17 +334,18 @@ def run(tier, seed, replay=None):
     rng_prims = random.Random(rng.getrandbits(64))
     rng_ops = random.Random(rng.getrandbits(64))
     rng_oracle = random.Random(rng.getrandbits(64))
-    drv = Driver()
+    drv = tl.Asker()
     try:
-        run_prims(rep, drv, rng_prims, 800 if quick else 12000,
+        run_prims(rep, drv, rng_prims, 1000 if quick else 12000,
                   maxdim=3 if quick else 4, maxaxes=5 if quick else 6)
-        run_tensor_ops(rep, drv, rng_ops, 1000 if quick else 9000,
+        run_tensor_ops(rep, drv, rng_ops, 1500 if quick else 8000,
                        maxdim=3 if quick else 4, maxwires=3 if quick else 4,
                        maxdepth=4 if quick else 5,
-                       work=400000 if quick else 3000000, peak=20000 if quick else 60000)
+                       work=400000 if quick else 1000000, peak=20000 if quick else 60000)
     finally:
         drv.close()
-    for _ in range(300 if quick else 4000):
+        rep.extra["driver_restarts"] = drv.restarts
+    for _ in range(450 if quick else 3500):
         subseed = rng_oracle.getrandbits(64)
         oracle_case(rep, random.Random(subseed), subseed,
                     maxdim=3 if quick else 4, maxwires=3 if quick else 4,
